@@ -326,19 +326,19 @@ theorem stepPragma_res {text : List Char} {b o : Nat} {st : LexState}
       -- the pragma text
       have h3 := inv_adv h2 (lineLen r3) (lineLen_no_nl r3)
       simp only at h3
-      have hx2 : lineLen r3 > 0 → Exact text b o
-          ⟨"PPPRAGMASTR", String.ofList (r3.take (lineLen r3)), st.lineno, st.col start⟩ start := by
+      have hx2 : trimLen (r3.take (lineLen r3)) > 0 → Exact text b o
+          ⟨"PPPRAGMASTR", String.ofList (r3.take (trimLen (r3.take (lineLen r3)))), st.lineno, st.col start⟩ start := by
         intro hpos
-        have hne3 : r3 ≠ [] := by intro e; rw [e] at hpos; simp [lineLen] at hpos
+        have hne3 : r3 ≠ [] := by intro e; rw [e] at hpos; simp [lineLen, trimLen] at hpos
         exact exact_here h2 hne3 _ _ (by simp)
       have hte : ∀ evs : List Ev,
-          evs = (if lineLen r3 > 0 then
+          evs = (if trimLen (r3.take (lineLen r3)) > 0 then
             [Ev.tok ⟨"PPPRAGMA", "pragma", st.lineno, st.col (st.pos + 1 + skipWs tl)⟩ (st.pos + 1 + skipWs tl) st.file,
-             Ev.tok ⟨"PPPRAGMASTR", String.ofList (r3.take (lineLen r3)), st.lineno, st.col start⟩ start st.file]
+             Ev.tok ⟨"PPPRAGMASTR", String.ofList (r3.take (trimLen (r3.take (lineLen r3)))), st.lineno, st.col start⟩ start st.file]
           else [Ev.tok ⟨"PPPRAGMA", "pragma", st.lineno, st.col (st.pos + 1 + skipWs tl)⟩ (st.pos + 1 + skipWs tl) st.file]) →
           (∀ e ∈ evs, isErr e = false) ∧ (∀ e ∈ evs, ∀ n x, e ≠ .dir n x) ∧ ToksExact text b o evs := by
         intro evs he
-        by_cases hpos : lineLen r3 > 0
+        by_cases hpos : trimLen (r3.take (lineLen r3)) > 0
         · simp only [hpos, ↓reduceIte] at he
           subst he
           refine ⟨by simp [isErr], by simp, ?_⟩
